@@ -108,6 +108,14 @@ def run(verbose=False):
         case("linalg_solve_mat", lambda: np.linalg.solve(SS, A), lambda: rnp.linalg.solve(S, a))
         case("clip", lambda: np.clip(V, -1.0, Wv), lambda: rnp.clip(v, -1.0, w))
         case("where", lambda: np.where(V > 0, V, Wv), lambda: rnp.where(v > 0, v, w))
+        case("isclose", lambda: np.isclose(V, V + 1e-9 * Wv), lambda: rnp.isclose(v, v + 1e-9 * w))
+        case("isclose_far", lambda: np.isclose(V, Wv), lambda: rnp.isclose(v, w))
+
+        def _ct(npm, dst, src, msk):
+            d = npm.array(dst)
+            npm.copyto(d, src, where=msk)
+            return d
+        case("copyto_where", lambda: _ct(np, V, Wv, V > 0), lambda: _ct(rnp, v, w, v > 0))
         case("abs_max", lambda: np.max(np.abs(V - Wv)), lambda: rnp.max(rnp.abs(v - w)))
         case("argsort", lambda: np.argsort(V), lambda: rnp.argsort(v, kind="stable"))
         case("diff0", lambda: np.diff(M, axis=0), lambda: rnp.diff(m, axis=0))
